@@ -50,6 +50,11 @@ def gen_cases(tier, seed):
                     c["unused"] = int(rng.integers(0, 3))
                 if "nulls" in c and F.nullable_kind(c["kind"]):
                     c["nulls"] = F.NULL_PATTERNS[int(rng.integers(0, len(F.NULL_PATTERNS)))]
+                if (i + j) % 5 == 0 and c["kind"] in F.DT_KINDS + F.DTZ_KINDS and c["kind"].split("_")[1] in ("ns", "us", "ms"):
+                    # the same instants in a COARSER resolution than the dataset's column (lossless): frames from another source
+                    pre_, u_ = c["kind"].split("_")
+                    c["kind"] = pre_ + "_" + {"ns": ["us", "ms", "s"], "us": ["ms", "s"], "ms": ["s"]}[u_][(i + j) % len({"ns": [1, 2, 3], "us": [1, 2], "ms": [1]}[u_])]
+                    c["coarser_unit"] = True
             steps.append({"frame": fr, "row_group_offsets": [None, 3, 10, [0, 2]][int(rng.integers(0, 4))] if fr["nrows"] > 2 else None,
                           "compression": [None, "SNAPPY", "GZIP", "ZSTD"][int(rng.integers(0, 4))],
                           "reopen": bool(rng.integers(0, 2)),
@@ -164,6 +169,8 @@ def run_case(case):
                 break
             batches.append(dfk)
             counters["appends"] = counters.get("appends", 0) + 1
+            if any(c_.get("coarser_unit") for c_ in st["frame"]["cols"]):
+                counters["appends_with_a_coarser_time_unit"] = counters.get("appends_with_a_coarser_time_unit", 0) + 1
             # ---- existing data untouched
             after = fsmon.snapshot(path)
             if scheme == "simple":
@@ -267,4 +274,4 @@ def run_case(case):
 
 
 def required(tier):
-    return {"appends_verified": 300, "prefix_hashes_compared": 80, "data_files_compared": 300, "audit_events": 500, "appends_with_reordered_columns": 30, "appends_through_a_kept_handle": 30, "reads_through_the_appending_handle": 60}
+    return {"appends_verified": 300, "prefix_hashes_compared": 80, "data_files_compared": 300, "audit_events": 500, "appends_with_reordered_columns": 30, "appends_through_a_kept_handle": 30, "reads_through_the_appending_handle": 60, "appends_with_a_coarser_time_unit": 8}
